@@ -50,7 +50,16 @@ let hex_of_str s = "x" ^ String.concat "" (List.map (fun b -> Printf.sprintf "%0
 let join = function [] -> "-" | l -> String.concat "," l
 let unjoin s = if s = "-" || s = "" then [] else String.split_on_char ',' s
 
-let cmp_kt (k1, _) (k2, _) = z_of_int (3 * (k1 - k2))
+(* the comparators of the harness (header C, Cd, C1, Cr, Cb); the model only tests the sign *)
+let cmp_for head (k1, _) (k2, _) =
+  let d = k1 - k2 in
+  z_of_int (match head with
+    | "Cd" -> d
+    | "C1" -> compare k1 k2
+    | "Cr" -> k2 - k1
+    | "Cb" -> if d < 0 then - (1 + d * d) else if d > 0 then 1 + d * d else 0
+    | _ -> 3 * d)
+let is_c head = String.length head > 0 && head.[0] = 'C'
 let show_kt (k, t) = Printf.sprintf "%d:%d" k t
 let parse_kt s = match String.split_on_char ':' s with [k; t] -> (int_of_string k, int_of_string t) | _ -> (max_int, max_int)
 
@@ -99,7 +108,7 @@ let () =
           if toks.(0) = "e" then begin
             incr nelem;
             (match head with
-             | "C" -> elems_c := !elems_c @ [(int_of_string (arg 1), int_of_string (arg 2))]
+             | h when is_c h -> elems_c := !elems_c @ [(int_of_string (arg 1), int_of_string (arg 2))]
              | "I" -> elems_z := !elems_z @ [z_of_bits ~signed:true (Int64.of_string ("0x" ^ arg 1))]
              | "U" -> elems_z := !elems_z @ [z_of_bits ~signed:false (Int64.of_string ("0x" ^ arg 1))]
              | _ -> elems_s := !elems_s @ [str_of_hex (arg 1)])
@@ -110,7 +119,8 @@ let () =
               mismatch !lineno !opno kind (Printf.sprintf "%s %s (n=%d): %s" head op !nelem what) in
             if res <> "?" then
             match head with
-            | "C" ->
+            | h when is_c h ->
+              let cmp_kt = cmp_for head in
               let a = !elems_c in
               let n = List.length a in
               let keys l = List.map fst l in
@@ -217,7 +227,7 @@ let () =
         let unsorted =
           let rec inv cmp = function a :: (b :: _ as t) -> cmp a b > 0 || inv cmp t | _ -> false in
           match head with
-          | "C" -> inv (fun (k1, _) (k2, _) -> compare k1 k2) !elems_c
+          | h when is_c h -> inv (fun x y -> int_of_z (cmp_for head x y)) !elems_c
           | "I" -> inv (fun x y -> compare (bits_of_z x) (bits_of_z y)) !elems_z
           | "U" -> inv (fun x y -> Int64.unsigned_compare (bits_of_z x) (bits_of_z y)) !elems_z
           | _ -> inv (fun x y -> compare (List.map int_of_z x) (List.map int_of_z y)) !elems_s in
